@@ -35,6 +35,17 @@ def miss_path(body):
         if b in lk:
             pending = (lk[b][0], b, lk[b][1])
         k = t["k"]
+        if k == "call" and strip_generics(mir.callee_name(t) or "").endswith("Iterator>::next"):
+            # `for key in ["a", "b", ..] { if let Some(v) = dict.get(key) { return .. } }`: the same sequence of lookups, spelled as a loop
+            keys = _const_array_of_iterator(body, t["args"][0])
+            loop = _loop_lookup(body, b, t)
+            if keys and loop:
+                look_block, hit_edge, exit_edge = loop
+                for kk in keys:
+                    seq.append((kk, look_block, hit_edge))
+                b = exit_edge
+                pending = None
+                continue
         if k in ("goto", "call", "drop", "assert"):
             if "t" not in t:
                 break
@@ -59,6 +70,73 @@ def miss_path(body):
             return seq, "unexpected branch at bb%d on the all-miss path (%r)" % (b, v)
         break
     return seq, None
+
+
+def _const_array_of_iterator(body, op):
+    """constant strings of the array an `array::IntoIter` / slice iterator walks, in order (None if not a constant array)"""
+    v = G.describe(body, op)
+    seen = 0
+    while v.kind == "call" and v.args and seen < 6:
+        seen += 1
+        if v.v.endswith("::into_iter") or v.v.endswith("::iter") or v.v.endswith("Deref>::deref") or v.v.endswith("::copied") or v.v.endswith("::cloned"):
+            v = v.args[0]
+        else:
+            break
+    if v.kind == "agg" and v.v in ("array", None) or (v.kind == "agg" and all(a.kind == "conststr" for a in v.args) and v.args):
+        if all(a.kind == "conststr" for a in v.args):
+            return [a.v for a in v.args]
+    return None
+
+
+def _loop_lookup(body, next_block, next_term):
+    """for the loop headed by the next() call in `next_block`: (block of the map lookup keyed by the loop item, target of its
+    Some edge, target of the loop's exhaustion edge), provided the lookup's None edge only leads back to the header"""
+    sw = next_term.get("t")
+    t = body.term(sw) if sw is not None else None
+    if not t or t["k"] != "switch":
+        return None
+    vals = {int(x[0]): x[1] for x in t["targets"]}
+    some_e = vals.get(1, t["otherwise"] if 0 in vals else None)
+    none_e = vals.get(0, t["otherwise"] if 1 in vals else None)
+    if some_e is None or none_e is None:
+        return None
+    # walk the body of the loop from the Some edge to the lookup
+    b = some_e
+    seen = set()
+    while b not in seen:
+        seen.add(b)
+        tt = body.term(b)
+        if tt["k"] == "call" and strip_generics(mir.callee_name(tt) or "") in GET_FNS and len(tt["args"]) == 2:
+            key = repr(G.describe(body, tt["args"][1]))
+            if not re.search(r"as Some\.0", key):
+                return None
+            dl = tt["dest"]["l"]
+            s2 = body.term(tt["t"])
+            if s2["k"] != "switch":
+                return None
+            v2 = {int(x[0]): x[1] for x in s2["targets"]}
+            hit = v2.get(1, s2["otherwise"] if 0 in v2 else None)
+            miss = v2.get(0, s2["otherwise"] if 1 in v2 else None)
+            if hit is None or miss is None:
+                return None
+            # the miss edge goes straight back to the header (no other lookups, no exits)
+            x = miss
+            hops = 0
+            while x != next_block and hops < 8:
+                hops += 1
+                sx = body.succ(x)
+                if len(sx) != 1 or x in lookups(body):
+                    return None
+                x = sx[0]
+            if x != next_block:
+                return None
+            return b, hit, none_e
+        sx = body.succ(b)
+        if len(sx) != 1:
+            return None
+        b = sx[0]
+    return None
+
 
 
 def reachable_lookups(body, start, lk):
